@@ -1,5 +1,5 @@
 /- The loader on (prefixes of) images written by `save`: header, table and bodies phases. -/
-import YaraModel.Lemmas.ArenaGrow
+import YaraModel.Lemmas.ArenaKeys
 namespace YaraModel.Arena
 open YaraModel.Gen.ArenaLayout
 
